@@ -162,3 +162,147 @@ contract(
     ])},
     props=["C06", "C10"],
 )
+
+# ---- <directoryhash> / <roothash> (C10, C11, C07): the XSD makes <content> and <structure> mandatory, their children optional
+OFF = "(0 if skipPath else 1)"
+CT = f"result.children[{OFF}]"
+SR = f"result.children[{OFF} + 1]"
+HE = "media_hash.hash_entries"
+PREV = "(media_hash.previous_path is not None and media_hash.previous_path != '')"
+contract(
+    "ascmhl.hashlist_xml_parser._directory_hash_xml_element",
+    slices=4,
+    params={"media_hash": "MHLMediaHash", "skipPath": "bool"},
+    returns="Element",
+    requires=["skipPath or media_hash.path is not None"],
+    ensures=[
+        "fresh(result) and result.tag == 'directoryhash'",
+        # both containers are ALWAYS written, in this order, after the path (if any) and before the previous path (if any)
+        f"len(result.children) == {OFF} + 2 + (1 if {PREV} else 0)",
+        f"{CT}.tag == 'content' and {SR}.tag == 'structure'",
+        f"skipPath or (result.children[0].tag == 'path' and result.children[0].text == as_posix(media_hash.path))",
+        f"skipPath or ('size' in result.children[0].attrib) == (media_hash.file_size is not None)",
+        f"skipPath or media_hash.file_size is None or result.children[0].attrib['size'] == str_of_optint(media_hash.file_size)",
+        f"skipPath or ('lastmodificationdate' in result.children[0].attrib) == (media_hash.last_modification_date is not None)",
+        f"skipPath or media_hash.last_modification_date is None or result.children[0].attrib['lastmodificationdate'] == iso(media_hash.last_modification_date)",
+        # one child per hash entry in each container, in entry order: content digest / structure digest of the same format
+        f"len({CT}.children) == len({HE}) and len({SR}.children) == len({HE})",
+        f"all({CT}.children[j].tag == {HE}[j].hash_format and {CT}.children[j].text == {HE}[j].hash_string for j in range(len({HE})))",
+        f"all({SR}.children[j].tag == {HE}[j].hash_format and {SR}.children[j].text == {HE}[j].structure_hash_string for j in range(len({HE})))",
+        f"all(('action' in {CT}.children[j].attrib) == ({HE}[j].action is not None and {HE}[j].action != '') for j in range(len({HE})))",
+        f"all({HE}[j].action is None or {HE}[j].action == '' or ({CT}.children[j].attrib['action'] == {HE}[j].action and {SR}.children[j].attrib['action'] == {HE}[j].action) for j in range(len({HE})))",
+        f"all(('hashdate' in {CT}.children[j].attrib) == ({HE}[j].hash_date is not None) for j in range(len({HE})))",
+        f"all({HE}[j].hash_date is None or ({CT}.children[j].attrib['hashdate'] == iso({HE}[j].hash_date, True) and {SR}.children[j].attrib['hashdate'] == iso({HE}[j].hash_date, True)) for j in range(len({HE})))",
+        # the entry elements are other objects than the element returned (a caller may re-tag the result)
+        f"all({CT}.children[j] != result and {SR}.children[j] != result for j in range(len({HE})))",
+        f"{CT} != result and {SR} != result",
+        f"not {PREV} or (result.children[len(result.children) - 1].tag == 'previousPath'"
+        " and result.children[len(result.children) - 1].text == as_posix(media_hash.previous_path))",
+    ],
+    loops={
+        0: Loop(invariant=[
+            "fresh(content_element) and fresh(structure_element) and content_element != structure_element",
+            "content_element.tag == 'content' and structure_element.tag == 'structure'",
+            "len(content_element.children) == _i and len(structure_element.children) == _i",
+            "all(fresh(content_element.children[j]) and fresh(structure_element.children[j]) for j in range(_i))",
+            "all(allocated(content_element.children[j]) and allocated(structure_element.children[j]) for j in range(_i))",
+            "allocated(content_element) and allocated(structure_element)",
+            "all(content_element.children[j].tag == _seq[j].hash_format and content_element.children[j].text == _seq[j].hash_string for j in range(_i))",
+            "all(structure_element.children[j].tag == _seq[j].hash_format and structure_element.children[j].text == _seq[j].structure_hash_string for j in range(_i))",
+            "all(('action' in content_element.children[j].attrib) == (_seq[j].action is not None and _seq[j].action != '') for j in range(_i))",
+            "all(_seq[j].action is None or _seq[j].action == '' or (content_element.children[j].attrib['action'] == _seq[j].action and structure_element.children[j].attrib['action'] == _seq[j].action) for j in range(_i))",
+            "all(('hashdate' in content_element.children[j].attrib) == (_seq[j].hash_date is not None) for j in range(_i))",
+            "all(_seq[j].hash_date is None or (content_element.children[j].attrib['hashdate'] == iso(_seq[j].hash_date, True) and structure_element.children[j].attrib['hashdate'] == iso(_seq[j].hash_date, True)) for j in range(_i))",
+            "_seq == media_hash.hash_entries",
+        ]),
+    },
+    props=["C10", "C11", "C07"],
+)
+
+RC = "result.children"
+contract(
+    "ascmhl.hashlist_xml_parser._root_media_hash_xml_element",
+    params={"root_media_hash": "MHLMediaHash"},
+    returns="Element",
+    ensures=[
+        "fresh(result) and result.tag == 'roothash'",
+        f"len({RC}) >= 2 and {RC}[0].tag == 'content' and {RC}[1].tag == 'structure'",
+        f"len({RC}[0].children) == len(root_media_hash.hash_entries) and len({RC}[1].children) == len(root_media_hash.hash_entries)",
+        f"all({RC}[0].children[j].tag == root_media_hash.hash_entries[j].hash_format and {RC}[0].children[j].text == root_media_hash.hash_entries[j].hash_string"
+        " for j in range(len(root_media_hash.hash_entries)))",
+        f"all({RC}[1].children[j].tag == root_media_hash.hash_entries[j].hash_format and {RC}[1].children[j].text == root_media_hash.hash_entries[j].structure_hash_string"
+        " for j in range(len(root_media_hash.hash_entries)))",
+    ],
+    props=["C10", "C11", "C07"],
+)
+
+# ---- <creatorinfo> (C10, C11): fixed head (creationdate, hostname, tool), the authors in order, then location, then comment
+CI = "hash_list.creator_info"
+NA = f"len({CI}.authors)"
+contract(
+    "ascmhl.hashlist_xml_parser._creator_info_xml_element",
+    params={"hash_list": "MHLHashList"},
+    returns="Element",
+    # lxml refuses None as element text / attribute value: what every hash list written by the tool satisfies
+    requires=[f"{CI} is not None and {CI}.tool is not None", f"{CI}.creation_date is not None and {CI}.host_name is not None",
+              f"{CI}.tool.name is not None and {CI}.tool.version is not None"],
+    ensures=[
+        "fresh(result) and result.tag == 'creatorinfo'",
+        f"len({RC}) == 3 + {NA} + (1 if {CI}.location is not None else 0) + (1 if {CI}.comment is not None else 0)",
+        f"{RC}[0].tag == 'creationdate' and {RC}[0].text == {CI}.creation_date",
+        f"{RC}[1].tag == 'hostname' and {RC}[1].text == {CI}.host_name",
+        f"{RC}[2].tag == 'tool' and {RC}[2].text == {CI}.tool.name",
+        f"all({RC}[3 + j].tag == 'author' for j in range({NA}))",
+        f"all(('role' in {RC}[3 + j].attrib) == ({CI}.authors[j].role is not None) and ('email' in {RC}[3 + j].attrib) == ({CI}.authors[j].email is not None)"
+        f" and ('phone' in {RC}[3 + j].attrib) == ({CI}.authors[j].phone is not None) for j in range({NA}))",
+        f"all({CI}.authors[j].role is None or {RC}[3 + j].attrib['role'] == {CI}.authors[j].role for j in range({NA}))",
+        f"all({CI}.authors[j].email is None or {RC}[3 + j].attrib['email'] == {CI}.authors[j].email for j in range({NA}))",
+        f"all({CI}.authors[j].phone is None or {RC}[3 + j].attrib['phone'] == {CI}.authors[j].phone for j in range({NA}))",
+        f"all({CI}.authors[j].name is None or {CI}.authors[j].name == '-' or {RC}[3 + j].text == {CI}.authors[j].name for j in range({NA}))",
+        f"{CI}.location is None or ({RC}[3 + {NA}].tag == 'location' and {RC}[3 + {NA}].text == {CI}.location)",
+        f"{CI}.comment is None or ({RC}[len({RC}) - 1].tag == 'comment' and {RC}[len({RC}) - 1].text == {CI}.comment)",
+    ],
+    loops={
+        0: Loop(invariant=[
+            "fresh(info_element) and info_element.tag == 'creatorinfo' and len(info_element.children) == 3 + _i",
+            "info_element.children[0].tag == 'creationdate' and info_element.children[0].text == creator_info.creation_date",
+            "info_element.children[1].tag == 'hostname' and info_element.children[1].text == creator_info.host_name",
+            "info_element.children[2].tag == 'tool' and info_element.children[2].text == creator_info.tool.name",
+            "all(fresh(info_element.children[j]) for j in range(3 + _i))",
+            "all(info_element.children[3 + j].tag == 'author' for j in range(_i))",
+            "all(('role' in info_element.children[3 + j].attrib) == (_seq[j].role is not None) and ('email' in info_element.children[3 + j].attrib) == (_seq[j].email is not None)"
+            " and ('phone' in info_element.children[3 + j].attrib) == (_seq[j].phone is not None) for j in range(_i))",
+            "all(_seq[j].role is None or info_element.children[3 + j].attrib['role'] == _seq[j].role for j in range(_i))",
+            "all(_seq[j].email is None or info_element.children[3 + j].attrib['email'] == _seq[j].email for j in range(_i))",
+            "all(_seq[j].phone is None or info_element.children[3 + j].attrib['phone'] == _seq[j].phone for j in range(_i))",
+            "all(_seq[j].name is None or _seq[j].name == '-' or info_element.children[3 + j].text == _seq[j].name for j in range(_i))",
+            "_seq == creator_info.authors and creator_info == hash_list.creator_info",
+        ]),
+    },
+    props=["C10", "C11"],
+)
+
+# ---- <processinfo> (C10, C11, C12): process type, the root hash only if there is one, then the ignore patterns
+PI = "hash_list.process_info"
+RMH = f"old({PI}.root_media_hash)"
+HASROOT = f"({RMH} is not None and len(old({PI}.root_media_hash.hash_entries)) > 0)"
+contract(
+    "ascmhl.hashlist_xml_parser._process_info_xml_element",
+    params={"hash_list": "MHLHashList"},
+    returns="Element",
+    requires=[f"{PI}.process is not None", "hash_list.file_path is not None"],
+    modifies=["*.path"],
+    ensures=[
+        "fresh(result) and result.tag == 'processinfo'",
+        f"{RC}[0].tag == 'process' and {RC}[0].text == {PI}.process.process_type",
+        f"len({RC}) == (3 if {HASROOT} else 2)",
+        f"not {HASROOT} or ({RC}[1].tag == 'roothash' and {RC}[1].children[0].tag == 'content' and {RC}[1].children[1].tag == 'structure')",
+        f"not {HASROOT} or len({RC}[1].children[0].children) == len({PI}.root_media_hash.hash_entries)",
+        f"not {HASROOT} or len({RC}[1].children[1].children) == len({PI}.root_media_hash.hash_entries)",
+        f"{RC}[len({RC}) - 1].tag == 'ignore'",
+        f"{PI}.ignore_spec is None or len({RC}[len({RC}) - 1].children) == len({PI}.ignore_spec._ignore_list)",
+        f"{PI}.ignore_spec is None or all({RC}[len({RC}) - 1].children[j].tag == 'pattern' and {RC}[len({RC}) - 1].children[j].text == {PI}.ignore_spec._ignore_list[j]"
+        f" for j in range(len({PI}.ignore_spec._ignore_list)))",
+    ],
+    props=["C10", "C11", "C12"],
+)
